@@ -24,7 +24,7 @@ func init() {
 			"non-trivial = the token stream has >= 4 tokens (a) or the AST has >= 3 expression nodes (b); distinct by input hash",
 		Assumptions: []string{"go-textseg grapheme segmentation is the definition of a column", "cty value equality"},
 		Quick:       Plan{Batches: 16, PerBatch: 1500, MinNonTrivial: 4000},
-		Thorough:    Plan{Batches: 64, PerBatch: 30000, MinNonTrivial: 200000},
+		Thorough:    Plan{Batches: 64, PerBatch: 60000, MinNonTrivial: 200000},
 		Case:        c14Case,
 	})
 }
